@@ -33,6 +33,7 @@ type world struct {
 	nblob                     int
 	log                       []string
 	handedOut                 [][]byte // plaintext slices returned to the plugin (must be wiped by it)
+	received                  [][]byte // plaintext slices the plugin handed to a regional Encrypt (its own copies included)
 }
 
 func newWorld(n int, wrapFaults, unwrapFaults bool) *world {
@@ -77,6 +78,7 @@ func (w *world) generate(region string) ([]byte, []byte, error) {
 
 func (w *world) encrypt(region string, pt []byte) ([]byte, error) {
 	w.log = append(w.log, "enc:"+region)
+	w.received = append(w.received, pt)
 	if w.failEnc[region] {
 		return nil, errors.New("kms unavailable")
 	}
@@ -171,7 +173,13 @@ func build(version int, w *world, n int, preferred string) (ae.KeyManagementServ
 			arnMap[r] = arn(r)
 		}
 		vx.MapOrderAll(true)
-		k, err := v2.NewBuilder(crypto, arnMap).WithPreferredRegion(preferred).WithAWSConfig(awsv2.Config{}).
+		// the caller's base config may already name a region (AWS_REGION, shared config): every regional client
+		// must still talk to its own region
+		base := awsv2.Config{}
+		if vx.Choice("base_config_has_region", 2) == 1 {
+			base.Region = regions[0]
+		}
+		k, err := v2.NewBuilder(crypto, arnMap).WithPreferredRegion(preferred).WithAWSConfig(base).
 			WithKMSFactory(func(cfg awsv2.Config, _ ...func(*kmsv2.Options)) v2.AWSClient {
 				return &fakeV2{w, cfg.Region}
 			}).Build()
@@ -238,6 +246,11 @@ func WrapUnwrap() {
 	vx.Assert("C17.first_generate_attempt_is_preferred_region", firstOf(w.log, "gen") == preferred)
 	for _, b := range w.handedOut {
 		vx.Assert("C17.data_key_plaintext_wiped_after_wrap", vx.AllZero(b))
+	}
+	for _, b := range w.received {
+		// whatever buffer carried the data key to a regional Encrypt - the KMS response itself or a copy of it -
+		// is wiped too, whether that region succeeded or not
+		vx.Assert("C10.data_key_copies_handed_to_regions_wiped_after_wrap", vx.AllZero(b))
 	}
 	if err != nil {
 		vx.Reach("C17.wrap_failed")
